@@ -11,7 +11,7 @@ RULE = ("Generated programs (the C02 generator: all instruction forms, data dire
         "optionally padded by an RMB/FCB block to sizes 300 / 3000 / 9000 or to an exact image length on a tape-block, "
         "sector or granule edge (254..257, 509..511, 2290..2309, 4596..4611, 6902..6912), or to 20-64 KB by a table of "
         "distinct words (enumerated at 22-28 granules); enumerated programs that begin with data and restate the current "
-        "location with a second ORG before the first instruction (the load address stays the first ORG), and programs whose last byte is at $FFFF with NAM and END after it; with or "
+        "location with a second ORG before the first instruction (the load address stays the first ORG), and programs whose last byte is at $FFFF with NAM and END after it, and programs whose NAM (and ORG) sit in an included header file; with or "
         "without NAM (1-12 letters/digits in either case), with or without --name, with END / END label / no END, "
         "are assembled by a real assembler.py process with each non-empty subset of {--to_bin, --to_cas, --to_dsk}. "
         "Oracle: reference image = in-process Program on the same lines; .bin == image byte for byte; the independent "
@@ -24,7 +24,7 @@ ASSUMPTIONS = [
     "the in-process assembly of the same lines is the reference image (its correctness is C01-C05's subject)",
     "vlib/casref.py and vlib/dskref.py read the outputs",
 ]
-HEALTH = {"nam": 0.12, "cli_name_only": 0.06, "no_name": 0.02, "multi_switch": 0.12, "edge_length": 0.06, "org_restated_after_data": 20, "ends_at_top_of_memory": 20}
+HEALTH = {"nam": 0.12, "cli_name_only": 0.06, "no_name": 0.02, "multi_switch": 0.12, "edge_length": 0.06, "org_restated_after_data": 20, "ends_at_top_of_memory": 20, "nam_in_included_file": 10}
 EXHAUSTIVE = {"quick": ["images of 50600..64000 bytes (22-28 granules) x {--to_dsk, all three switches}"], "thorough": ["as quick"]}
 
 # image lengths on the container formats' edges: tape block (255), disk sector (256) and granule (2304) with the
@@ -54,6 +54,14 @@ def enumerated(tier, seed):
             for end in ("none", "plain", "label"):
                 for cli_name in (None, "OTHER"):
                     yield dict(prog=top, nam="TopMem", cli_name=cli_name, nam_pos=99, bulk=bulk, target_len=None, switches=sw, end=end, top=True)
+    # the NAM (and the ORG) come from an included header file
+    body = {"org": 0x0E00, "stmts": [{"lab": "", "k": "org", "addr": 0x0E00}, {"lab": "L0", "k": "imm8", "mn": "LDA", "val": proggen.lit(1)},
+                                      {"lab": "", "k": "inh", "mn": "RTS"}]}
+    for header in (1, 2):
+        for sw in (["cas"], ["dsk"], ["bin", "cas", "dsk"]):
+            for cli_name in (None, "OTHER"):
+                for end in ("none", "label"):
+                    yield dict(prog=body, nam="Gizmo", cli_name=cli_name, nam_pos=0, bulk=0, target_len=None, switches=sw, end=end, header=header)
     # a program that starts with data and restates the current location with an ORG before its first instruction: the
     # image still starts at the first ORG, and that is the load address
     L = proggen.lit
@@ -167,8 +175,15 @@ def execute(case):
     for sw in case["switches"]:
         argv += ["--to_" + sw, "out." + sw]
     with driver.TempDir() as tmp:
+        main_lines = lines
+        if case.get("header"):
+            # the first `header` lines (NAM, or NAM and ORG) live in a file of their own, spliced in by INCLUDE
+            labels.append("nam_in_included_file")
+            with open(os.path.join(tmp, "header.asm"), "w", newline="") as fh:
+                fh.write("".join(lines[:case["header"]]))
+            main_lines = [" INCLUDE header.asm\n"] + lines[case["header"]:]
         with open(os.path.join(tmp, "prog.asm"), "w", newline="") as fh:
-            fh.write("".join(lines))
+            fh.write("".join(main_lines))
         res = driver.run_cli("assembler.py", argv, cwd=tmp)
         if res.status != 0 or "Traceback" in res.stderr:
             return viol("assembler.py {} exited {}: {!r} {!r}".format(argv, res.status, res.stdout[-200:], res.stderr[-200:]),
